@@ -146,6 +146,24 @@ def run(ctx, log):
                     cases.append(("FFusedRight", sym, name, x, y))
                 if x[0] == "i" and x[1] >= 0:
                     cases.append(("FFusedLeft", sym, name, x, y))
+    # prefix operators over the same lattice (unary minus is exact, with the range end -MIN_INT an error; ! on booleans)
+    un = []
+    for z in sorted(set(lat[:6] + lat[-6:] + [0, 1, -1, 7, -7, MAX_INT, MIN_INT, MIN_INT + 1, MAX_INT - 1] + [rng.choice(lat) for _ in range(40)])):
+        exp = "OK i%d" % (-z) if MIN_INT <= -z <= MAX_INT else "ERR Type"
+        for src in ("stel a = %s; -a" % int_src(z), "functie f(x) { -x } f(%s)" % int_src(z), "-%s" % int_src(z), "functie f(x) { stel y = -x; 0 - y } f(%s)" % int_src(z)):
+            un.append((src, exp if not src.endswith("0 - y } f(%s)" % int_src(z)) else ("OK i%d" % z if MIN_INT <= -z <= MAX_INT else "ERR Type")))
+    for src, exp in [("!ja", "OK b0"), ("!nee", "OK b1"), ("!1", "ERR Type"), ("-ja", "ERR Type"), ("-\"a\"", "ERR Type"), ("!(als nee { 1 })", "ERR Type"),
+                     ("functie f(x) { !x } f(nee)", "OK b1"), ("-[1]", "ERR Type"), ("--5", "OK i5"), ("!!ja", "OK b1"), ("-(0 - 5)", "OK i5")]:
+        un.append((src, exp))
+    uo = vlib.nlh("eval", ["1000 " + vlib.hexs(s) for s, _ in un], tag="c06u")
+    ud = vlib.nlh("eval", ["1000 " + vlib.hexs(s) for s, _ in un], tag="c06ud", profile="debug")
+    for (src, exp), o, d in zip(un, uo, ud):
+        ctx.seen(("unary", src))
+        ctx.count("form:prefix")
+        if o.split(" | ")[0] != exp:
+            ctx.violate("a prefix operator did not give the exact result / the documented error", source=src, observed=o.split(" | ")[0][:200], expected=exp)
+        elif d.split(" | ")[0] != exp:
+            ctx.violate("a prefix operator behaves differently in the debug build", source=src, observed=d.split(" | ")[0][:200], expected=exp)
     log("%d operator cases" % len(cases))
     srcs = [program(f, sym, a, b) for (f, sym, name, a, b) in cases]
     obs = vlib.nlh("eval", ["100000 " + vlib.hexs(s) for s in srcs], tag="c06")
